@@ -704,6 +704,11 @@ where
     C: Collect + ?Sized,
 {
     #[inline]
+    fn on_register_dispatch(&self, collector: &Dispatch) {
+        self.as_ref().on_register_dispatch(collector)
+    }
+
+    #[inline]
     fn register_callsite(&self, metadata: &'static Metadata<'static>) -> Interest {
         self.as_ref().register_callsite(metadata)
     }
@@ -756,6 +761,12 @@ where
     #[inline]
     fn clone_span(&self, id: &span::Id) -> span::Id {
         self.as_ref().clone_span(id)
+    }
+
+    #[inline]
+    #[allow(deprecated)]
+    fn drop_span(&self, id: span::Id) {
+        self.as_ref().drop_span(id)
     }
 
     #[inline]
@@ -783,6 +794,11 @@ where
     C: Collect + ?Sized,
 {
     #[inline]
+    fn on_register_dispatch(&self, collector: &Dispatch) {
+        self.as_ref().on_register_dispatch(collector)
+    }
+
+    #[inline]
     fn register_callsite(&self, metadata: &'static Metadata<'static>) -> Interest {
         self.as_ref().register_callsite(metadata)
     }
@@ -835,6 +851,12 @@ where
     #[inline]
     fn clone_span(&self, id: &span::Id) -> span::Id {
         self.as_ref().clone_span(id)
+    }
+
+    #[inline]
+    #[allow(deprecated)]
+    fn drop_span(&self, id: span::Id) {
+        self.as_ref().drop_span(id)
     }
 
     #[inline]
